@@ -45,6 +45,12 @@ def make_inputs(chk, work, rng, n):
             else:
                 h["preamble"][k] = histgen.nat(rng.choice([2, 3, 9]))
         h["ops"].append({"op": "wb"})
+        if i % 3 == 0:
+            # a block the application built itself whose preamble carries no parameter index (RFC 8618: default 0)
+            pools = histgen.Pools(rng)
+            raw = histgen.gen_raw_block(rng, pools, 0, h["preamble"]["bps"][0])
+            raw["noidx"] = True
+            h["ops"].insert(rng.randrange(len(h["ops"]) + 1), raw)
         hs.append(h)
     hist = work / "hist.ndjson"
     hist.write_text("\n".join(json.dumps(h) for h in hs) + "\n")
